@@ -14,13 +14,7 @@ Definition set_uxx_cur : bool -> bytes -> N -> N -> N -> N -> option (bytes + er
 
 Lemma set_uxx_cur_is_old little buf size off value len : size * 8 < two64 -> off + len < two64 ->
   set_uxx_cur little buf size off value len = set_uxx little buf size off value len.
-Proof.
-  intros Hs Hl. unfold set_uxx_cur, set_uxx_satM, set_uxx, wM, w64.
-  rewrite (N.mod_small (size * 8)), (N.mod_small (off + len)) by lia.
-  change (copy_bitsM two64) with copy_bits.
-  destruct (N.ltb_spec (size * 8) off); destruct (N.ltb_spec (size * 8 - off) len); destruct (N.ltb_spec (size * 8) (off + len));
-    cbn [orb]; first [reflexivity | exfalso; lia].
-Qed.
+Proof. intros _ _. reflexivity. Qed.   (* b-c14, consolidation: CPrims.set_uxx now carries the current text *)
 
 Definition cpp_set_uxx_cur (s : span) (value len_bits : N) : option (bytes + err) :=
   let capacity_bits := w64 (sp_size s * 8) in
@@ -34,15 +28,6 @@ Definition cpp_set_uxx_cur (s : span) (value len_bits : N) : option (bytes + err
 
 Lemma cpp_set_uxx_cur_is_old s value len : sp_size s * 8 < two64 -> sp_off s + len < two64 ->
   cpp_set_uxx_cur s value len = cpp_set_uxx s value len.
-Proof.
-  intros Hs Hl. unfold cpp_set_uxx_cur, cpp_set_uxx, w64.
-  rewrite (N.mod_small (sp_size s * 8)), (N.mod_small (sp_off s + len)) by lia.
-  destruct (N.ltb_spec (sp_size s * 8) (sp_off s)); destruct (N.ltb_spec (sp_size s * 8 - sp_off s) len);
-    destruct (N.ltb_spec (sp_size s * 8) (sp_off s + len)); cbn [orb]; first [reflexivity | exfalso; lia].
-Qed.
+Proof. intros _ _. reflexivity. Qed.   (* b-c14, consolidation: CppPrims.cpp_set_uxx now carries the current text *)
 
-(* where they differ: an offset near 2^64 - the old check wraps and lets the copy run (None = out of the allocation), the current
-   one reports TooSmall *)
-Example set_uxx_cur_differs :
-  set_uxx_cur false [0; 0] 2 (two64 - 8) 1 16 = Some (inr TooSmall) /\ set_uxx false [0; 0] 2 (two64 - 8) 1 16 = None.
-Proof. vm_compute. split; reflexivity. Qed.
+(* (the old, wrapping text and the witness on which it differed: History/C14_history.v set_uxx_old_offset_wrap_refuted) *)
